@@ -75,6 +75,23 @@ func genFamily(r *Rng, fam string) []byte {
 	case "refuse": // user of (undefined here) link references
 		fmt.Fprintf(&b, "[%s] and [%s][] and ![%s] and [text][%s]\n", use, label, use, label)
 	case "footnote":
+		if r.Chance(1, 6) {
+			// ten or more footnotes, one of them referenced ten or more times: indexes and
+			// reference counts with two digits
+			k := r.Range(10, 13)
+			many := r.Intn(k)
+			for i := 0; i < k; i++ {
+				fmt.Fprintf(&b, "%s[^n%d] ", word(r), i)
+			}
+			for i := r.Range(9, 12); i > 0; i-- {
+				fmt.Fprintf(&b, "again[^n%d] ", many)
+			}
+			b.WriteString("\n\n")
+			for i := 0; i < k; i++ {
+				fmt.Fprintf(&b, "[^n%d]: %s\n", i, word(r))
+			}
+			break
+		}
 		n := pick(r, []string{"1", "note", "a"})
 		fmt.Fprintf(&b, "%s[^%s] and again[^%s]\n\n[^%s]: %s\n", sentence(r, 2), n, n, n, sentence(r, 3))
 		if r.Chance(1, 3) {
@@ -550,12 +567,18 @@ func biasConfig(r *Rng, c Config, fam string) Config {
 	case "footnote", "footuse":
 		c.Footnote = true
 		if r.Chance(1, 2) {
-			c.FootnoteOpt = pick(r, []string{"prefix", "prefixfn", "titles"})
+			c.FootnoteOpt = pick(r, []string{"prefix", "prefixfn", "prefixfn", "titles", "titles", "both"})
+			if r.Chance(1, 3) {
+				c.OptsVia = "renderer"
+			}
 		}
 	case "table", "strike", "tasklist", "linkify":
 		c.GFM = true
 		if fam == "table" && r.Chance(1, 2) {
 			c.TableAlign = pick(r, []string{"style", "attribute", "none"})
+			if r.Chance(1, 3) {
+				c.OptsVia = "renderer"
+			}
 		}
 		if fam == "linkify" && r.Chance(1, 2) {
 			c.LinkifyOpt = pick(r, []string{"protocols", "regexp"})
